@@ -53,7 +53,7 @@ class _Helpers(dict):
 
 
 RANGE = 'structures::paging::page::PageRangeInclusive'
-DEALLOC = 'structures::paging::frame_alloc::FrameDeallocator::deallocate_frame'
+DEALLOC = 'structures::paging::FrameDeallocator::deallocate_frame'
 
 
 def run(chk):
@@ -149,7 +149,9 @@ def helper(chk, impl):
         rng = Struct(RANGE, [page_half('rs'), page_half('re')])
         level = enum_val(I, LVL, SP.LEVEL_NAMES[lv])
         if impl == 'mapped':
-            walker = Struct(MP + 'mapped_page_table::PageTableWalker', [Opaque('frame-mapping')])
+            wt = I.fn[fn_]['locals'][roles['walker'] + 1]
+            wt = wt.get('to') if wt.get('k') == 'ref' else wt
+            walker = Struct(wt.get('name'), [Opaque('frame-mapping')])
             st.mem[('arg', 'walker')] = walker
             args = by_role({'table': Ref(('obj', 'T')), 'walker': Ref(('arg', 'walker')), 'level': level, 'range': rng, 'dealloc': Opaque('deallocator')})
         else:
